@@ -271,6 +271,8 @@ def cases(tier, rng):
             seqs = [[("ACGT".index(ch_)) for ch_ in s] for s in SEQS[:n]]
             for k in (1, 2, 3):
                 yield {"op": "count_kmers", "chunks": _cut(seqs, mask), "k": k}
+            if n <= (8 if big else 6):
+                yield {"op": "count_kmers_rows", "chunks": _cut(seqs, mask), "k": 2}      # the `axis=-1` keyword: one count vector per read
             for kt, lim in (("ragged", N), ("str", NS), ("int", NS)):
                 if n > lim:
                     continue
@@ -634,6 +636,18 @@ def _pipeline(m, c, streamed):
         src = _interval_table(m, rows)
     gi = genome.get_intervals(src)
     fin = (lambda x: cg.compute(x)) if streamed else (lambda x: x)
+    if streamed and _vmode(c) == 3:
+        # a second streamed genome (other sizes, other data) built before and computed after the one under test
+        g2 = bnp.Genome.from_dict({"chrA": 5, "chrB": 7})
+        d2 = m["Interval"](["chrA", "chrB"], [1, 0], [3, 7])
+        node2 = g2.get_intervals(m["NpDataclassStream"](iter([d2[:1], d2[1:]]), dataclass=m["Interval"])).get_pileup().sum()
+        fin0 = fin
+
+        def fin(x):
+            r_ = fin0(x)
+            if int(cg.compute(node2)) != 9:
+                raise RuntimeError("second streamed genome disturbed")
+            return r_
     if kind == "track_ufunc_sum":
         return int(fin((gi.get_pileup() * 2 + 1).sum()))
     if kind == "track_bool_index":
@@ -737,6 +751,14 @@ def impl(c):
             mem = m["count_kmers"](mk(seqs), c["k"])
             f = lambda e: {"total": int(np.sum(e.counts)), "digest": _kmer_digest(e.alphabet, np.asarray(e.counts).ravel())}
             return {"v": f(r), "mem": f(mem)}
+        if op == "count_kmers_rows":
+            mk = lambda rows: bnp.as_encoded_array(["".join("ACGT"[x] for x in s) for s in rows], bnp.DNAEncoding)
+            st = m["BnpStream"](mk(ch) for ch in c["chunks"])
+            r = m["count_kmers"](st, c["k"], axis=-1)
+            mem = m["count_kmers"](mk([s for ch in c["chunks"] for s in ch]), c["k"], axis=-1)
+            f = lambda e: [sorted([["ACGT".index(ch) for ch in str(lab)], int(n_)] for lab, n_ in zip(e.alphabet, row) if n_)
+                           for row in np.asarray(e.counts).reshape(-1, len(e.alphabet)).tolist()]
+            return {"v": f(r), "mem": f(mem)}
         if op in ("count_kmers", "count_kmers1"):
             alpha = "ACGTN" if c.get("A") == 5 else "ACGT"
             enc = _alpha5() if c.get("A") == 5 else bnp.DNAEncoding
@@ -760,7 +782,26 @@ def impl(c):
             import zlib
             custom = zlib.crc32(core.canon(c["chunks"]).encode()) % 8 < 4      # the documented `key=` argument in half of the cases
             kw = {"key": _custom_key} if custom else {}
-            r = _groups_obs(bnp.groupby(st, col, **kw), c["kt"], custom)
+            if zlib.crc32(core.canon(c["chunks"]).encode()) % 3 == 0:
+                # a second, different grouped stream alive at the same time (other key column, other key function,
+                # other data), consumed alternately with the one under test
+                decoy_rows = [[0, 90], [1, 91], [1, 92], [3, 93]]
+                decoy = bnp.groupby(m["NpDataclassStream"](iter([_etable(m, decoy_rows[:3]), _etable(m, decoy_rows[3:])]),
+                                                          dataclass=m["E"]), "key" if col != "key" else "name",
+                                    **({} if custom else {"key": _custom_key}))
+                main = bnp.groupby(st, col, **kw)
+                got_main, got_decoy = [], []
+                for a_, b_ in itertools.zip_longest(main, decoy):
+                    if a_ is not None:
+                        got_main.append(a_)
+                    if b_ is not None:
+                        got_decoy.append((b_[0], [int(x) for x in b_[1].id]))
+                r = _groups_obs(iter(got_main), c["kt"], custom)
+                want_decoy = [[90], [91, 92], [93]]
+                if [g_ for _, g_ in got_decoy] != want_decoy:
+                    r = {"second_stream_disturbed": got_decoy}
+            else:
+                r = _groups_obs(bnp.groupby(st, col, **kw), c["kt"], custom)
             mem = _groups_obs(bnp.groupby(_etable(m, [x for ch in c["chunks"] for x in ch], kt), col, **kw), c["kt"], custom)
             return {"v": r, "mem": mem}
         if op in ("chunk_entries", "chunk_lines"):
@@ -898,6 +939,15 @@ def oracle(c):
             h = h * 4 + seqs[:, j:j + nwin]
         counts = np.bincount(h.ravel(), minlength=4 ** k)
         return {"total": int(c["nreads"] * nwin), "digest": int(sum(int(n) * (1 + v) ** 2 for v, n in enumerate(counts.tolist())))}
+    if op == "count_kmers_rows":
+        out = []
+        for s_ in data:
+            cnt = {}
+            for i in range(len(s_) - c["k"] + 1):
+                t = tuple(s_[i:i + c["k"]])
+                cnt[t] = cnt.get(t, 0) + 1
+            out.append(sorted([list(t), n_] for t, n_ in cnt.items()))
+        return out
     if op in ("count_kmers", "count_kmers1"):
         k, cnt = c["k"], {}
         for s in data:
